@@ -49,6 +49,21 @@ def run(ctx):
             res.bad(key, "%s unwraps Type::%s, but %s only tests the operand with `matches` (asks none of %s): the type `!` passes that "
                          "test while the query answers None, so a program with a diverging operand panics while parsing"
                     % (what, query, creator, ", ".join("Type::" + a for a in accept)), b.where())
+    # the predicates accepted above as "structural" must be structural: a predicate written as `self.matches(<pattern type>)`
+    # is true for `!` (which matches everything) while the query it stands in for answers None
+    structural = sorted({a for _, q, _, accept, _ in ROWS for a in accept if a != q and not a.endswith("_len") and a not in
+                         ("index_result", "element_type", "return_type", "iter_element", "mut_element_type", "field_type", "tuple_element_at", "flatten_tuple", "params")})
+    for a in structural:
+        pb = lib.body(T + a)
+        key = "queryguard:structural|%s" % a
+        if not res.anchor(pb is not None, T + a):
+            continue
+        via_matches = [c for hb in own.members(T + a) for c in hb.calls if c.callee == T + "matches"]
+        if via_matches:
+            res.bad(key, "Type::%s is decided by Type::matches: it answers true for `!`, so an operand of type `!` passes the check that "
+                         "licenses unwrapping the corresponding query, and parsing panics instead of reporting an error" % a, pb.where(via_matches[0].line))
+        else:
+            res.ok(key, pb.where(), "structural (no matches call)")
     # assign::can_be_used: return_type callback control-dependent on the can_be_used callback
     b0 = lib.body("instruction::bin_op::assign::can_be_used")
     if res.anchor(b0 is not None, "assign::can_be_used"):
